@@ -12,6 +12,9 @@ pub(crate) use ::kani;
 
 pub mod stubs;
 pub mod c12_abi;
+pub mod c12_le;
+pub mod c12_eint;
+pub mod c12_edict;
 
 #[cfg(not(kani))]
 include!(concat!(env!("OUT_DIR"), "/registry.rs"));
